@@ -91,7 +91,7 @@ Fixpoint serve_frames_x (now : Z) (s : server) (c : Z) (fs : list frame)
   end.
 
 (** one read: (output bytes of c, parser buffer, frames pushed to other connections, server,
-    connection really closed) - a Closing connection that still has subscriptions stays *)
+    connection closed) *)
 Definition conn_read_x (now : Z) (s : server) (c : Z) (buf chunk : bytes)
   : bytes * bytes * list (Z * frame) * server * bool :=
   match drain_buf no_double (buf ++ chunk) with
